@@ -54,6 +54,12 @@ Theorem C13_sweep_decodes : forall c m, verifyC c m = VAccept ->
 Proof. exact sweep_decodes. Qed.
 Print Assumptions C13_sweep_decodes.
 
+(* ... and what decodes is executed: no VM_ERR_DECODE (previous theorem) and no VM_ERR_INVALID_OPCODE on a verified position *)
+Theorem C13_no_invalid_opcode : forall c m s fr frs ip start avail i n,
+  fetch m start avail = FOk i n -> not_invalid (exec_instr c m s fr frs ip i n).
+Proof. intros. apply exec_instr_not_invalid. eapply fetch_ok_in_table; eassumption. Qed.
+Print Assumptions C13_no_invalid_opcode.
+
 (* ---- VM ----
    vm_safe_partial: for EVERY byte string below 2^27 bytes and EVERY fuel, load + verify + run never reaches Crash or a Signal,
    when the six repairs are present.  "partial": the run may end in Unmodelled, i.e. leave the modelled opcode set
